@@ -760,8 +760,16 @@ func scanPolyOut(c *core.Ctx) []ob {
 				if id, ok := unparen(v.Fun).(*ast.Ident); ok && (id.Name == "len" || id.Name == "cap") {
 					return
 				}
+				// the destination is the last polynomial operand (a function value or a flag may follow it)
+				lastPoly := len(v.Args) - 1
+				for i := len(v.Args) - 1; i >= 0; i-- {
+					if t := info.TypeOf(v.Args[i]); t != nil && (strings.HasSuffix(t.String(), "ring.Poly") || strings.HasSuffix(t.String(), "ringqp.Poly") || strings.HasSuffix(t.String(), ".Poly")) {
+						lastPoly = i
+						break
+					}
+				}
 				for i, a := range v.Args {
-					check(a, i == len(v.Args)-1)
+					check(a, i == lastPoly)
 				}
 			case ast.Expr:
 				// only the polynomial as a whole (the bare identifier) handed on as an operand: views of single
